@@ -5,19 +5,19 @@ import (
 	"bytes"
 	"crypto/sha256"
 	"encoding/json"
-	"io"
-	"regexp"
-	"sort"
-	"sync"
 	"fmt"
 	"image"
 	"image/color"
 	"image/gif"
 	"image/jpeg"
 	"image/png"
+	"io"
 	"reflect"
+	"regexp"
 	"runtime/debug"
+	"sort"
 	"strings"
+	"sync"
 	"time"
 
 	"github.com/zerx-lab/wordZero/pkg/document"
@@ -360,4 +360,62 @@ func exploreTiers(sc schedx.Scenario, maxExec int64, beat func(), thorough bool,
 		add(schedx.Explore(sc, schedx.Options{Bound: 2, Horizon: 500000, MaxExec: maxExec, Progress: beat}, onExec), "statement-points_2-preemptions_capped-bonus", false)
 	}
 	return total
+}
+
+// interfere is "somebody else's work": a different document is built with a broad selection of calls
+// (paragraphs, heading, list items of two kinds, foot- and endnote, header and footer, pictures of three
+// formats, a table with a merge and a cell picture, a custom style and an edit of a predefined one, page
+// settings, a table of contents), serialised twice, opened again and rendered as a template.  Used as an
+// operation in the single-document searches: by C07 nothing of this may change the document under test,
+// so the reference model of every search stays as it is.  Errors are ignored, a panic is returned.
+func interfere() string { return guard(interfereRaw) }
+
+// interfereRaw is the same without catching panics (for callers that run their operations under guard).
+func interfereRaw() {
+	{
+		o := document.New()
+		o.AddParagraph("other document {{v}}")
+		o.AddHeadingParagraph("Other heading", 1)
+		o.AddListItem("other item", &document.ListConfig{Type: document.ListTypeDecimal, StartNumber: 4})
+		o.AddListItem("other bullet", &document.ListConfig{Type: document.ListTypeBullet, BulletSymbol: document.BulletTypeDot})
+		o.AddFootnote("other", "other footnote text")
+		o.AddEndnote("other", "other endnote text")
+		o.AddHeader(document.HeaderFooterTypeDefault, "other header {{v}}")
+		o.AddFooterWithPageNumber(document.HeaderFooterTypeFirst, "other footer", true)
+		o.AddImageFromData(pngBytes(5, 4, 201), "other.png", document.ImageFormatPNG, 5, 4, nil)
+		o.AddImageFromData(jpegBytes(6, 4, 202), "other.jpeg", document.ImageFormatJPEG, 6, 4, nil)
+		o.AddImageFromData(gifBytes(3, 5, 203), "other.gif", document.ImageFormatGIF, 3, 5, nil)
+		if t, err := o.AddTable(&document.TableConfig{Rows: 2, Cols: 3, Width: 6000}); err == nil && t != nil {
+			t.SetCellText(0, 0, "other cell")
+			t.MergeCellsHorizontal(1, 0, 1)
+			o.AddCellImage(t, 0, 2, &document.CellImageConfig{Data: pngBytes(2, 3, 204), Width: 8})
+		}
+		sm := o.GetStyleManager()
+		sm.CreateCustomStyle("OtherStyle", "Other Style", "paragraph", "Normal")
+		if st := sm.GetStyle("Normal"); st != nil && st.RunPr != nil {
+			st.RunPr.Bold = nil
+		}
+		o.AddParagraph("styled").SetStyle("OtherStyle")
+		o.SetPageOrientation(document.OrientationLandscape)
+		o.SetPageMargins(11, 12, 13, 14)
+		o.SetHeaderFooterDistance(3, 4)
+		o.GenerateTOC(document.DefaultTOCConfig())
+		o.SetTitle("other title")
+		b, _ := o.ToBytes()
+		o.ToBytes()
+		if r, err := document.OpenFromMemory(io.NopCloser(bytes.NewReader(b))); err == nil && r != nil {
+			r.AddParagraph("other, reopened")
+			r.AddImageFromData(pngBytes(4, 4, 205), "other2.png", document.ImageFormatPNG, 4, 4, nil)
+			r.ToBytes()
+		}
+		eng := document.NewTemplateEngine()
+		if _, err := eng.LoadTemplateFromDocument("other", o); err == nil {
+			td := document.NewTemplateData()
+			td.SetVariable("v", "other value")
+			if d, err := eng.RenderTemplateToDocument("other", td); err == nil && d != nil {
+				d.AddFooter(document.HeaderFooterTypeEven, "other even footer")
+				d.ToBytes()
+			}
+		}
+	}
 }
